@@ -79,6 +79,7 @@ fn judge<T: LFloat>(cx: &mut Cx, bits: u64) {
     }
     cx.n += 1;
     let v = T::from_bits64(bits);
+    vharness::guard::set_crumb_bits(if k.mant_bits == 52 { "c02 write f64 bits" } else { "c02 write f32 bits" }, bits);
     let mut buf = [0u8; lexical_core::BUFFER_SIZE];
     let out: Vec<u8> = match report::catch(|| lexical_core::write(v, &mut buf[..lexical_core::BUFFER_SIZE]).to_vec()) {
         Ok(o) => o,
@@ -263,6 +264,7 @@ fn neighbours_of_short_ties(kind: Kind, rng: &mut Rng) -> Vec<u64> {
 fn main() {
     let args = Args::parse();
     report::quiet_panics();
+    vharness::guard::install();
     let rep = Report::new();
     let cfg = vharness::config_name();
     rep.note("config", cfg.clone());
